@@ -232,9 +232,12 @@ class Engine:
             if len(excl) > 64:
                 raise BoundHit("value fork over more than 64 values")
             self.model = None
-            m = self._get_model()
+            r, m = self._check((), self.prove_timeout)
+            if r == z3.unsat:
+                raise PathAbort()
             if m is None:
                 raise BoundHit("no model for value fork (solver unknown)")
+            self.model = m
             chosen = m.eval(e, model_completion=True).as_long()
             r, _ = self._check((e != chosen,), self.fork_timeout)
             if r != z3.unsat:
@@ -257,6 +260,19 @@ class Engine:
             self.apps[key] = (v, (term,))
             hit = (v,)
         return hit[0]
+
+    def surely_false(self, cond, timeout=400):
+        """True iff  contradicts the input assumptions alone (ranges of inputs and draws); a cheap,
+        sound pre-check that keeps trivially infeasible branches (e.g. exp overflow of a bounded draw)
+        from being explored when the full path condition makes the solver time out."""
+        try:
+            s = z3.Solver()
+            s.set("timeout", timeout)
+            s.add(*self.assumps)
+            s.add(cond)
+            return s.check() == z3.unsat
+        except z3.Z3Exception:
+            return False
 
     def scoped(self):
         """Context manager: everything created inside (axioms, UF applications, trig pairs) is discarded."""
